@@ -37,7 +37,7 @@ from .oracles import Violation
 from .workload import FieldSel, OpGen, gen_schema, render
 from .world import World
 
-POLICIES = ("random", "fifo", "lifo", "zero", "inline")
+POLICIES = ("random", "pick", "fifo", "lifo", "zero", "inline")
 
 
 class Discard(Exception):
@@ -403,6 +403,11 @@ def run_case(draws, prop, tier="quick"):
             reps = profile["reps"] if mode != "blocking" else 1
             if config == "threads" and tier != "thorough":
                 reps = profile.get("l2_reps", 1)
+            base_reps = reps
+            if tier == "thorough" and mode != "blocking" \
+                    and config != "threads" and profile["reps"] > 1:
+                # order sweep: any in-flight item may complete next
+                reps += 3
             for rep in range(reps):
                 sname = "sched:%d:%s:%d" % (idx, config, rep)
                 sched = draws.stream(sname)
@@ -410,6 +415,8 @@ def run_case(draws, prop, tier="quick"):
                     policy = {"kind": "fifo"}
                 elif rep == 0:
                     policy = {"kind": "random"}
+                elif rep >= base_reps:
+                    policy = {"kind": "pick"}
                 else:
                     policy = {"kind": POLICIES[
                         sched.below(len(POLICIES), "policy")]}
